@@ -31,12 +31,14 @@
 (*                    between them                                         *)
 (*   Dedup  = "seen"  only the first heading with a given text gets a      *)
 (*                    heading line                                         *)
+(*   Width  = "first" the delimiter row is as wide as the first row, not   *)
+(*                    as the widest row of a ragged table                  *)
 (***************************************************************************)
 EXTENDS DocModel, SequencesExt
 
 CONSTANTS Cases,      \* descriptors of the documents explored (see MarkdownMC)
           Expand(_),  \* descriptor -> [els, off, mx, meta]
-          Esc, Header, Merge, Sep, Dedup
+          Esc, Header, Merge, Sep, Dedup, Width
 
 \* ------------------------------------------------------------- the writer
 Blank == [t |-> "blank"]
@@ -44,7 +46,8 @@ Concat(ss) == FoldLeft(LAMBDA a, b : a \o b, <<>>, ss)
 
 CellOut(t, r, c) ==
     LET kd == t.kind[r][c] IN
-    IF Covered(t, r, c) THEN (IF Merge = "skip" THEN <<>> ELSE <<[src |-> "", words |-> <<>>]>>)
+    IF Absent(t, r, c) THEN (IF Width = "first" THEN <<>> ELSE <<[src |-> "", words |-> <<>>]>>)
+    ELSE IF Covered(t, r, c) THEN (IF Merge = "skip" THEN <<>> ELSE <<[src |-> "", words |-> <<>>]>>)
     ELSE CASE kd = "pipe" /\ Esc = "raw" ->
                    <<[src |-> "a" \o Tag(r + t.off, c), words |-> <<"a" \o Tag(r + t.off, c)>>],
                      [src |-> "b" \o Tag(r + t.off, c), words |-> <<"b" \o Tag(r + t.off, c)>>]>>
@@ -60,13 +63,17 @@ RowCells(t, r) ==
        ELSE cells
 RowLine(t, r) == [t |-> "row", cells |-> RowCells(t, r)]
 
+\* Width = "first" is the implementation-shaped writer that sizes the delimiter row (and pads) by the
+\* FIRST row instead of the widest one, and writes every row with the cells it has
+SepWidth(t) == IF Width = "first" THEN RowWidth(t, 1) ELSE t.nc
+
 TableLines(t) ==
     IF Header = "afterlast" /\ LeadMarked(t.hm, t.nr) >= 2
     THEN \* the delimiter row after the LAST of the leading rows the source marks as header
          LET h == LeadMarked(t.hm, t.nr) IN
-         [x \in 1..h |-> RowLine(t, x)] \o <<[t |-> "sep", n |-> t.nc]>> \o [x \in 1..(t.nr - h) |-> RowLine(t, h + x)]
+         [x \in 1..h |-> RowLine(t, x)] \o <<[t |-> "sep", n |-> SepWidth(t)]>> \o [x \in 1..(t.nr - h) |-> RowLine(t, h + x)]
     ELSE LET first == IF Header = "dup" /\ ~t.hdr /\ t.nr > 1 THEN 1 ELSE 2
-         IN <<RowLine(t, 1), [t |-> "sep", n |-> t.nc]>> \o [x \in 1..(t.nr - first + 1) |-> RowLine(t, first + x - 1)]
+         IN <<RowLine(t, 1), [t |-> "sep", n |-> SepWidth(t)]>> \o [x \in 1..(t.nr - first + 1) |-> RowLine(t, first + x - 1)]
 
 ListLines(items) == [n \in 1..Len(items) |-> [t |-> "li", ind |-> 2 * items[n].d, k |-> items[n].k, s |-> items[n].w]]
 
